@@ -177,7 +177,8 @@ def c19(tier):
             w_h('VHarnessRestoreDense', 'restore from the mnemonic: the first three 100-output batches each hold a signed output; both keysets scanned; blinded messages of distinct (secret, r) pairs assumed distinct', must_reach=('restored',), summaries=('h2c', 'dleq', 'padd-inj'), timeout_s=1800),
             w_h('VHarnessRestore', 'restore from the mnemonic: signed pattern over the first 4 batches of 100 outputs (2^4 patterns), both keysets scanned; blinded messages of distinct (secret, r) pairs assumed distinct', must_reach=('restored',), summaries=('h2c', 'dleq', 'padd-inj'), timeout_s=1800)]
 def c08(tier):
-    return [w_h('VHarnessWalletReceive', 'receive a token of the own mint: 1..2 proofs of 2^0..2^3, ppk in {0,100,1000}, stored counter symbolic < 2^30', must_reach=('received', 'receive-failed')),
+    return [w_h('VHarnessWalletReceiveDLEQ', 'receive a token of 1..2 genuine proofs of 2^0..2^2 that carry DLEQ data (e, s, r) or not, plain or P2PK-locked to the wallet key (witness attached by the wallet), ppk in {0,1000}', summaries=('h2c', 'dleq', 'nut10'), must_reach=('received', 'received-locked')),
+            w_h('VHarnessWalletReceive', 'receive a token of the own mint: 1..2 proofs of 2^0..2^3, ppk in {0,100,1000}, stored counter symbolic < 2^30', must_reach=('received', 'receive-failed')),
             w_h('VHarnessWalletMint', 'mint tokens', must_reach=('minted',)),
             w_h('VHarnessWalletMintThenSend', 'holding one deterministic proof of 8 (stored with DLEQ e,s,r): send 1..5 through a swap', must_reach=('sent',)),
             w_h('VHarnessWalletMelt', 'melt: 1..2 held proofs with/without stored DLEQ data, each payment outcome', must_reach=('melt-outcome-0',))]
@@ -223,7 +224,7 @@ C10_ASSUME = COMMON_ASSUME + [
 PROPS = {
     'C20': dict(harnesses=c20, level='bounded symbolic verification (reduced scope): handler decisions and structural JSON shape over a handler-level model of net/http', assumptions=MINT_ASSUME + ['net/http and gorilla/mux modelled at the handler level: request = method + URL + path variables + body, response = recorded status and body'], outside=['byte-exactness of encoding/json output', 'gorilla/mux routing', 'websocket subscriptions (NUT-17)', 'cache expiry timing, CORS headers', 'success-path JSON shape of the melt / melt-quote / mint-quote / checkstate / restore handlers (their status codes and failure reporting are covered by VHarnessServerFaults; shape only for swap, mint, keys, quote state)']),
     'C19': dict(harnesses=c19, level='bounded symbolic verification: counters submitted vs counters stored per operation, Restore() executed whole over a symbolic signed/empty pattern, send killed at any storage / HTTP call then restored', assumptions=WALLET_ASSUME + C11_ASSUME, outside=['bolt.go', 'bip39', 'wallet crash points: one operation (send / melt paid or failed / receive / mint) from one starting state each; a melt left PENDING at the crash is not covered', 'the claim that a crashed wallet never re-submits a signed counter (false by design: the counter is advanced after the proofs are stored)', 'more than 4 batches']),
-    'C08': dict(harnesses=c08, level='bounded symbolic verification: every HTTP request body produced by the real client.go is decoded and inspected', assumptions=WALLET_ASSUME, outside=['transport below client.go, side channels', 'receive from an untrusted mint with swap-to-trusted (incl. its SIG_ALL branch, which melts freshly swapped proofs), mint-to-mint swap, multi-mint payments: seed C08b lives there and is not detected', 'P2PK / HTLC locked receive']),
+    'C08': dict(harnesses=c08, level='bounded symbolic verification: every HTTP request body produced by the real client.go is decoded and inspected', assumptions=WALLET_ASSUME, outside=['transport below client.go, side channels', 'receive from an untrusted mint with swap-to-trusted (incl. its SIG_ALL branch, which melts freshly swapped proofs), mint-to-mint swap, multi-mint payments: seed C08b lives there and is not detected', 'HTLC-locked receive (ReceiveHTLC); P2PK-locked receive only for locks on the wallet key without further tags']),
     'C17': dict(harnesses=c17, level='bounded symbolic verification (reduced scope): per-operation conservation step for one wallet against an honest-contract mint', assumptions=WALLET_ASSUME, outside=['multi-wallet / multi-mint histories as a whole (argued by composition)', 'swapToTrusted / MintSwap / MultiMintPayment', 'bolt.go', 'the real mint behind the fake (C01/C02/C05)']),
     'C18': dict(harnesses=c18, level='bounded symbolic verification of the real selection / swap-to-send code against an honest-contract mint', assumptions=WALLET_ASSUME, outside=['bolt.go', 'amounts above 2^5 per proof, more than 4 held proofs']),
     'C04': dict(harnesses=c04, level='bounded symbolic verification: soundness formula, completeness and explicit mutation classes', assumptions=MINT_ASSUME + ['unforgeability stated explicitly: an arbitrary C is not the valid signature of its secret under one of the mint keys', 'distinct denominations / keysets have distinct private keys'], outside=['BIP-32 derivation collisions', 'hash-to-curve collisions']),
